@@ -214,8 +214,34 @@ def check_C02(tier):
             elif f[2] == "accept":
                 violations.append(viol(pid, r, "non-sentence accepted (language is not exactly the grammar's)",
                                        {"input_symbol_ids": w}))
+    # the COMPILED parsers of all five variants (packed and plain tables, both Go templates, TypeScript): every sentence of an
+    # LALR(1) grammar is accepted by each of them, every non-sentence by none
+    res = x_sweep(tier, rng, n=12 if tier == "quick" else 150)
+    ties += x_build_ties(res)
+    vnames = [v[3] for v in xrun.VARIANTS if not (v[0] == "typescript" and res["node"] is None)]
+    xsent = 0
+    for c in res["usable"]:
+        core = c["core"]
+        if core.g is None or core.V.get("isLALR1", ["?"])[0] != "yes" or core.V.get("isLALR1ref", ["yes"])[0] == "no":
+            continue
+        name2id = {v["name"]: k for k, v in core.g.syms.items()}
+        ids = [name2id.get(t if not t.startswith("'") else "$operator" + t[1], 0) for t in c["xs"]["terms"]]
+        for w in c["inputs"]:
+            toks = [ids[ord(ch) - 97] if ord(ch) - 97 < len(ids) else 0 for ch in w]
+            member = core.g.recognizes(toks)
+            for vn in vnames:
+                r = xrun.impl_run(res, c, vn, w)
+                if r is None or r["verdict"] == "loop":
+                    continue
+                xsent += member
+                if member and r["verdict"] != "accept":
+                    violations.append(xviol(pid, res, c, vn, "compiled parser does not accept a sentence of an LALR(1) grammar",
+                                            {"input": w, "token_symbol_ids": toks, "verdict": r["verdict"]}))
+                elif not member and r["verdict"] == "accept":
+                    violations.append(xviol(pid, res, c, vn, "compiled parser accepts a non-sentence (language is not exactly the grammar's)",
+                                            {"input": w, "token_symbol_ids": toks}))
     cov = std_cov(results, runs, GEN_RULE + "; inputs: all strings up to a bound + sampled sentences, membership decided by an Earley recogniser", samples,
-                  {"lalr1_grammars": lalr, "sentences_checked": sentences,
+                  {"lalr1_grammars": lalr, "sentences_checked": sentences, "sentence_runs_of_compiled_parsers": xsent,
                    "hypotheses_evaluated": "gramWF certA certT setsClosed laClosed certC laTerm on the implementation's automaton/table with the verified oracle's lookahead table"})
     return common.conclude(pid, tier, "proof", proof, ties, violations, cov, ["LALR(1) is decided by the verified lookahead oracle on the verified LR(0) generator's automaton"])
 
@@ -364,6 +390,16 @@ def check_C09(tier):
             violations.append(viol(pid, r, what, {"states": [sorted(s) for s in istates][:40]}))
         if len(samples) < 3 and len(istates) > 4:
             samples.append({"case": r.id, "states": len(istates), "transitions": len(igoto)})
+    # a grammar whose canonical collection is known in closed form (2N+2 item sets) and lies beyond the state limit: it is
+    # either refused, or its automaton has exactly that many states
+    nn = 1100
+    fam = ("%token " + " ".join("T%d" % i for i in range(1, nn + 1)) + "\n%start s\n%%\ns : " +
+           " | ".join("T%d T%d" % (i, i) for i in range(1, nn + 1)) + " ;\n%%\n")
+    frec = run_front([{"id": "lim", "src": fam}])["lim"]
+    fns = next((int(l.split()[1]) for l in frec["impl"] if l.startswith("NSTATES ")), None)
+    if fns is not None and not any(l.startswith("REFUSE") for l in frec["impl"]) and fns != 2 * nn + 2:
+        violations.append({"key": common.finding_key({"limit-family": fns}), "what": "state set differs from the canonical LR(0) collection: the grammar has %d item sets, the automaton delivered has %d states" % (2 * nn + 2, fns),
+                           "replay": {"property": pid, "grammar_file": fam, "canonical_item_sets": 2 * nn + 2, "states_delivered": fns}})
     cov = std_cov(results, nstates, GEN_RULE + "; evaluations = states compared with an independently computed canonical collection", samples)
     return common.conclude(pid, tier, "proof", proof, ties, violations, cov, ["grammars below the 2000-state cap"])
 
@@ -1009,9 +1045,9 @@ HAND_SPECS = [
      "rules": [{"lhs": "E", "rhs": ["E", "'a'", "E"], "prec": None}, {"lhs": "E", "rhs": ["E", "'t'", "E"], "prec": None},
                {"lhs": "E", "rhs": ["'$'", "E", "'o'"], "prec": None}, {"lhs": "E", "rhs": ["N"], "prec": None}]},
     # a literal token that is not ASCII (its name must still be printed as written)
-    {"tokens": ["N"], "lits": ["'×'", "'+'"], "prec": [("left", ["'+'"]), ("left", ["'×'"])], "nts": ["E"], "start": "E",
+    {"tokens": ["N"], "lits": ["'×'", "'+'", "'→'"], "prec": [("right", ["'→'"]), ("left", ["'+'"]), ("left", ["'×'"])], "nts": ["E"], "start": "E",
      "rules": [{"lhs": "E", "rhs": ["E", "'+'", "E"], "prec": None}, {"lhs": "E", "rhs": ["E", "'×'", "E"], "prec": None},
-               {"lhs": "E", "rhs": ["N"], "prec": None}]},
+               {"lhs": "E", "rhs": ["E", "'→'", "E"], "prec": None}, {"lhs": "E", "rhs": ["N"], "prec": None}]},
     # grammars so small that the generator may decline to pack the table
     {"tokens": ["A"], "lits": [], "prec": [], "nts": ["S"], "start": "S", "rules": [{"lhs": "S", "rhs": [], "prec": None}]},
     {"tokens": ["A"], "lits": [], "prec": [], "nts": ["S"], "start": "S",
@@ -2607,6 +2643,15 @@ def check_C12(tier):
     def family(nn):
         return ("%token " + " ".join("T%d" % i for i in range(1, nn + 1)) + "\n%start s\n%%\ns : " +
                 " | ".join("T%d T%d" % (i, i) for i in range(1, nn + 1)) + " ;\n%%\n")
+    # usable grammars of particular shapes: a token whose NAME is a single letter that also occurs as a character literal
+    for hi, hsrc in enumerate(["%token n 300\n%start s\n%%\ns : n | 'n' n ;\n%%\n",
+                               "%token a b\n%left a\n%start s\n%%\ns : s a s | 'a' | b 'b' 'a' ;\n%%\n",
+                               "%token x\n%type <v> s\n%union { v int }\n%start s\n%%\ns : 'x' x 'x' | ;\n%%\n"]):
+        hrec = run_front([{"id": "hand%d" % hi, "src": hsrc}])["hand%d" % hi]
+        hd = digest_front(hrec["impl"])
+        if hd["refuse"] or hd["hang"] or hd["ast_err"]:
+            violations.append({"key": common.finding_key({"hand": hsrc}), "what": "usable grammar refused (%s)" % (hd["refuse"] or hd["hang"] or "syntax"),
+                               "replay": {"property": pid, "grammar_file": hsrc, "got": hd["refuse"] or hd["hang"] or "syntax"}})
     lim_cases = [{"id": "lim%d" % nn, "src": family(nn), "states": 2 * nn + 2} for nn in (511, 767, 895, 998, 999, 1100)]
     lrec = run_front(lim_cases)
     near_limit = {}
@@ -2614,6 +2659,13 @@ def check_C12(tier):
         d = digest_front(lrec[c["id"]]["impl"])
         got = d["refuse"] if d["refuse"] else ("hang" if d["hang"] else ("syntax" if d["ast_err"] else None))
         near_limit[str(c["states"])] = str(got)
+        ns = next((int(l.split()[1]) for l in lrec[c["id"]]["impl"] if l.startswith("NSTATES ")), None)
+        if got is None and ns is not None and ns != c["states"]:
+            # processed, but with another number of parser states than the grammar's canonical collection has (2N+2):
+            # a grammar beyond the limit that is "processed" by cutting states off is neither refused nor usable
+            violations.append({"key": common.finding_key({"states": c["states"], "ns": ns}),
+                               "what": "grammar whose LR(0) collection has %d states is processed with %d states" % (c["states"], ns),
+                               "replay": {"property": pid, "grammar_file": c["src"], "canonical_states": c["states"], "states_delivered": ns}})
         if c["states"] < 2000 and got is not None:
             violations.append({"key": common.finding_key({"states": c["states"]}), "what": "usable grammar with %d parser states (below the limit of 2000) is refused (%s)" % (c["states"], got),
                                "replay": {"property": pid, "grammar_file": c["src"], "parser_states": c["states"], "got": got}})
